@@ -254,9 +254,18 @@ structure St where
   own : String
   deriving DecidableEq, Repr
 
+/-- the bare part of a full JID: everything before the first `/` (RFC 7622: the resourcepart starts at the FIRST
+slash and may itself contain `@` and `/`).  This is what the user's own bare address IS once the server has bound
+`jid` (legacy bind result, SASL 2 authorization-identifier) or the application has set it with `setJid`. -/
+def bareOf (jid : String) : String :=
+  String.ofList (jid.toList.takeWhile (fun c => c != '/'))
+
 inductive Op
-  /-- new client: manager generation and configured bare JID -/
+  /-- new client / user+domain set field by field: manager generation and the resulting bare JID -/
   | configure (g : Gen) (own : String)
+  /-- the own full JID becomes `jid`: bound by the server at login (legacy resource binding, SASL 2 + Bind 2) or given
+  to `QXmppConfiguration::setJid`; the configuration's bare JID must from then on be `bareOf jid` -/
+  | bound (jid : String)
   | stanza (o : Outer)
   deriving DecidableEq, Repr
 
@@ -265,6 +274,7 @@ def init : St := { gen := .v2, own := "" }
 /-- one output record per stanza -/
 def step (s : St) : Op → St × List Res
   | .configure g own => ({ gen := g, own := own }, [])
+  | .bound jid => ({ s with own := bareOf jid }, [])
   | .stanza o => (s, [handle s.gen s.own o])
 
 def run (s : St) : List Op → St × List Res
